@@ -2,6 +2,7 @@ import WM.Proto
 import WM.Model.Numeric
 import WM.Spec.Numeric
 import WM.Model.NumericDate
+import WM.Lemmas.NumericEqualBounds
 namespace WM.Drv.C13
 open WM.Proto WM.Proto.SExp WM.Numeric WM.NumericSpec WM.NumericDate
 
@@ -191,6 +192,13 @@ def handleCore : List SExp → String
     match a.nat?, b.nat? with
     | some a, some b => showBool (fLt a b)
     | _, _ => "bad-op"
+  | [.atom "pycmp", a, b] =>
+    -- Python's `<`, `<=`, `==` on two doubles (the spec's ieeeLt / ieeeLe and pyEq)
+    match a.nat?, b.nat? with
+    | some a, some b =>
+      let f (x : Bool) : String := if x then "1" else "0"
+      s!"{f (ieeeLt a b)} {f (ieeeLe a b)} {f (pyEq a b)}"
+    | _, _ => "bad-op"
   | [.atom "totallt", a, b] =>
     match a.nat?, b.nat? with
     | some a, some b => showBool (totalLt a b)
@@ -247,6 +255,16 @@ def handleCore : List SExp → String
         let s ← floatToSortable b sg
         indexTerms 8 step s.toNat)
     | _, _, _ => "bad-op"
+  | [.atom "index-float-list", sg, step, bs] =>
+    match sg.bool?, step.nat?, natList? bs with
+    | some sg, some step, some bs =>
+      showEx (showList showHex) (do
+        let ys ← bs.mapM fun b => do
+          let b ← prepareFloat sg b
+          let s ← floatToSortable b sg
+          pure s.toNat
+        indexTermsList 8 step ys)
+    | _, _, _ => "bad-op"
   | [.atom "compile-int", w, sg, step, s, e, sx, ex] =>
     match w.nat?, sg.bool?, step.nat?, optInt? s, optInt? e, sx.bool?, ex.bool? with
     | some w, some sg, some step, some s, some e, some sx, some ex =>
@@ -257,6 +275,11 @@ def handleCore : List SExp → String
     | some sg, some step, some s, some e, some sx, some ex =>
       showEx (showList showSub) (compileFloat sg step s e sx ex)
     | _, _, _, _, _, _ => "bad-op"
+  | [.atom "compile-dec", w, sg, step, dc, s, e, sx, ex] =>
+    match w.nat?, sg.bool?, step.nat?, dc.nat?, opt? rat? s, opt? rat? e, sx.bool?, ex.bool? with
+    | some w, some sg, some step, some dc, some s, some e, some sx, some ex =>
+      showEx (showList showSub) (compileDecimal w sg step dc s e sx ex)
+    | _, _, _, _, _, _, _, _ => "bad-op"
   | [.atom "dt2long", d, s, u] =>
     match d.int?, s.int?, u.int? with
     | some d, some s, some u => toString (tdToUsecs ⟨d, s, u⟩)
